@@ -233,4 +233,25 @@ class Zones(Sub):
         return bool(frag_all), "fragile-midnight-in-range" if frag_all else "plain"
 
 
-SUBS = [Shapes(), Zones()]
+class RandomYears(Sub):
+    name = "random_years"
+    backends = ("py",)
+    n = {"quick": 1500, "thorough": 40000}
+    shards = {"quick": 3, "thorough": 8}
+    rule = ("Date and UTC DateTime on uniformly drawn dates of years 2..9998 (century boundaries over-weighted), one weekday, n in {1..6, count-1..count+2}: the same brute-force oracle; "
+            "non-trivial: century year or its neighbours, or n >= count")
+
+    def strategy(self, ctx):
+        year = st.one_of(st.integers(2, 9998), st.sampled_from([1899, 1900, 1901, 2099, 2100, 2101, 2200, 2400, 1600, 2108, 2192, 9996]))
+        return st.fixed_dictionaries({"y": year, "m": st.integers(1, 12), "day": st.integers(1, 31), "wd": st.integers(0, 6), "dt": st.booleans()})
+
+    def check(self, case, ctx):
+        y, m = case["y"], case["m"]
+        day = min(case["day"], calendar.monthrange(y, m)[1])
+        d = D.date(y, m, day)
+        o = pendulum.datetime(y, m, day, 7, 8, 9) if case["dt"] else pendulum.date(y, m, day)
+        nav_checks(o, d, case["wd"], lambda c: {1, 2, 3, 4, 5, 6, c - 1, c, c + 1, c + 2})
+        return y % 100 in (0, 1, 99), "century-edge" if y % 100 in (0, 1, 99) else "plain"
+
+
+SUBS = [Shapes(), Zones(), RandomYears()]
